@@ -189,6 +189,19 @@ Fixpoint frag_expr (fl : list (N * kind)) (k : nat) (sc : list N) (x : expr) {st
                    end) ks args
             | _ => false
             end
+      | ECall callee args _ =>                  (* the callee is computed: mk(1)(2), a lambda called where it is written *)
+          match frag_fexpr fl k sc callee with
+          | Some (KF ks KP) =>
+              (fix go (ks : list kind) (args : list expr) {struct ks} : bool :=
+                 match ks, args with
+                 | [], [] => true
+                 | KP :: ks', a :: args' => frag_expr fl k sc a && go ks' args'
+                 | K :: ks', a :: args' =>
+                     match frag_fexpr fl k sc a with Some K' => kind_eqb K' K | None => false end && go ks' args'
+                 | _, _ => false
+                 end) ks args
+          | _ => false
+          end
       | EIf branches _ => frag_branches fl k sc branches
       | _ => false
       end
@@ -213,6 +226,20 @@ with frag_fexpr (fl : list (N * kind)) (k : nat) (sc : list N) (x : expr) {struc
       | ECall (ERead f _) args _ =>                                   (* a call that returns a function *)
           if f =? pv then None else
           match fun_kind fl f with
+          | Some (KF ks (KF a r)) =>
+              if (fix go (ks : list kind) (args : list expr) {struct ks} : bool :=
+                    match ks, args with
+                    | [], [] => true
+                    | KP :: ks', a :: args' => frag_expr fl k sc a && go ks' args'
+                    | K :: ks', a :: args' =>
+                        match frag_fexpr fl k sc a with Some K' => kind_eqb K' K | None => false end && go ks' args'
+                    | _, _ => false
+                    end) ks args
+              then Some (KF a r) else None
+          | _ => None
+          end
+      | ECall callee args _ =>                  (* ... of a computed callee *)
+          match frag_fexpr fl k sc callee with
           | Some (KF ks (KF a r)) =>
               if (fix go (ks : list kind) (args : list expr) {struct ks} : bool :=
                     match ks, args with
@@ -367,7 +394,10 @@ Fixpoint frag_items (pv sv bound : N) (k : nat) (scg : list N) (fl : list (N * k
       end
   end.
 
-(* STAGE 4h (4g + FUNCTION-VALUED CONSTANTS  x :: <function value>  in any statement list and among the outer definitions: the value is the name of a
+(* STAGE 4i (4h + COMPUTED CALLEES: in a call  c(a1, ..., an)  the callee c is the name of a function (as before) or any
+   other function-valued expression -- a call that returns a function: mk(1)(2), curry(1)(2)(3); a lambda called where it
+   is written: (fn x: int -> int do ... end)(3) --, evaluated before the arguments;
+   4h = 4g + FUNCTION-VALUED CONSTANTS  x :: <function value>  in any statement list and among the outer definitions: the value is the name of a
    function, a lambda (that is a local function), or a call that returns a function -- `c :: mkc(0)` --; from there to
    the end of the list x is a function name: it can be called and passed on like any other.  While its value is
    computed the name exists and cannot be used (frag_stmts, the entry (x, KP));
@@ -411,7 +441,7 @@ Fixpoint frag_items (pv sv bound : N) (k : nat) (scg : list N) (fl : list (N * k
    expressions are int, bool and string literals, reads of variables in scope, + - * (+ on two strings concatenates),
    the six comparisons (on two ints or on two strings: byte-wise lexicographic order),
    <=> (assert-equal), and/or/not, unary minus, calls print(e), calls f(a1, ..., an) of functions by
-   name (top-level, local, or a function parameter; an argument ai is a plain expression or, for a parameter of
+   name (top-level, local, a function parameter or constant) or of a computed callee (mk(1)(2), a lambda; an argument ai is a plain expression or, for a parameter of
    function kind, the name of a function of that kind, a lambda expression  fn p1: T1, ... -> T do ... end  whose
    body is a function body of the fragment over what is in scope there, or a call that returns a function of that kind), and if/elif/else expressions and statements whose branches are statement lists.
    KINDS.  Every value is plain (int, bool, string, nil) or a function; the kind of a parameter and of the result of a
@@ -421,8 +451,7 @@ Fixpoint frag_items (pv sv bound : N) (k : nat) (scg : list N) (fl : list (N * k
    position, as the value of a constant or as the result of a function; a function name can be called and passed to a parameter of the same function kind, nothing
    else: so print, the operators, the conditions and the assignments only ever see plain values.
    NOT in the fragment: `ret` without a value (it returns Sylt's nil, the table __NIL), ASSIGNMENTS of function
-   values (`c = mk(2)`), function values called where they are computed
-   (`mk(1)(2)`), `ret` of a function value, blobs, tuples, lists, enums/case, floats, division. *)
+   values (`c = mk(2)`), `ret` of a function value, blobs, tuples, lists, enums/case, floats, division. *)
 Definition frag (k : nat) (r : resolved) : bool :=
   let bound := N.of_nat (length (r_vars r)) + 1 in
   match r_stmts r with
